@@ -499,6 +499,8 @@ def check(run, repo, world):
     # ---- QueryDT8ColourValue ----------------------------------------------
     m, fn, _ = world.func(MOD + ".QueryDT8ColourValue")
     fn = normalise(fn, world, MOD)
+    from ..normal import fold_try_else_copy
+    fn = fold_try_else_copy(fn)
     F = MOD + ".QueryDT8ColourValue"
     cfg = gen_cfg(fn, F)
     ys = yields_of(cfg, world, MOD)
